@@ -114,6 +114,12 @@ STATEMENTS = [
     'set location "G2"', 'set group "A"', 'on location "Z"',
     'repeat in group "P1" as y begin set y end',
     'on "B" and location "G1" and "M"',
+    # a known name with a blank at either end, or in another case, names
+    # nothing
+    'set "A "', 'on " B"', 'set group "G1 "', 'off location " P1"',
+    'set "Z " zone 1', 'set " M" row 0', 'set "a"', 'on group "g1"',
+    'repeat in group "G1 " as y begin set y end',
+    'off "B" and "A " and "Z"',
 ]
 
 
@@ -168,8 +174,25 @@ STRIPPED = {
     'set group "A"': ('', ()), 'on location "Z"': ('', ()),
     'repeat in group "P1" as y begin set y end': ('', ()),
     'on "B" and location "G1" and "M"': ('on "B" and "M"', ()),
+    'set "A "': ('', ()), 'on " B"': ('', ()), 'set group "G1 "': ('', ()),
+    'off location " P1"': ('', ()), 'set "Z " zone 1': ('', ()),
+    'set " M" row 0': ('', ()), 'set "a"': ('', ()),
+    'on group "g1"': ('', ()),
+    'repeat in group "G1 " as y begin set y end': ('', ()),
+    'off "B" and "A " and "Z"': ('off "B" and "Z"', ()),
 }
 assert all(k in STATEMENTS for k in STRIPPED)
+
+
+def configure_as_production(devices):
+    """env.configure, then the logging set-up every front end performs
+    (light_module.configure -> log_config.configure): the log entries the
+    statement speaks of are the ones that pass through that configuration.
+    With the capturing handler already on the root logger basicConfig adds
+    nothing, so on the repository as it stands this changes no output."""
+    env.configure(devices)
+    from bardolph.lib import log_config
+    log_config.configure()
 
 
 def build_script(rng):
@@ -345,7 +368,7 @@ def per_device(requests):
 def compare_stripped(ctx, v, script, stripped, exempt, base_requests):
     """operands that name nothing or ask for a missing capability change
     nothing for any other device: same traffic as the script without them"""
-    env.configure(simnet.make_devices(POP))
+    configure_as_production(simnet.make_devices(POP))
     simnet.set_plan(None)
     ref = run_script(stripped)
     replay = {'part': 'stripped', 'script': script, 'stripped': stripped,
@@ -379,7 +402,7 @@ def part_scripts(ctx):
     for v in range(nvar):
         rng = ctx.rng('script', v)
         script, stripped, exempt = build_script(rng)
-        env.configure(simnet.make_devices(POP))
+        configure_as_production(simnet.make_devices(POP))
         simnet.set_plan(None)
         base = run_script(script)
         if not base.accepted or base.stops:
@@ -399,7 +422,7 @@ def part_scripts(ctx):
         for j, (desc, kw, faulty) in enumerate(plans):
             if not ctx.mine(j + v):
                 continue
-            env.configure(simnet.make_devices(POP))
+            configure_as_production(simnet.make_devices(POP))
             plan = simnet.FaultPlan(**kw)
             simnet.set_plan(plan)
             try:
@@ -455,7 +478,7 @@ def part_discovery(ctx):
         if not ctx.mine(j):
             continue
         for first in ('known', 'empty'):
-            env.configure(simnet.make_devices(POP) if first == 'known' else [])
+            configure_as_production(simnet.make_devices(POP) if first == 'known' else [])
             ls = env.light_set_instance()
             simnet.SimLan.devices = simnet.make_devices(POP)
             before = directory_snapshot(ls)
